@@ -56,9 +56,12 @@ func (i *inputString) getCurrentAsByte() byte {
 		i.eof = true
 		return 0
 	}
+	// Find the byte offset of the current code point in the source string. An invalid byte is one
+	// U+FFFD in runes but a single byte in s, so the offset must come from s, not from RuneLen.
 	var pos int
 	for j := 0; j < i.pointer; j++ {
-		pos += utf8.RuneLen(i.runes[j])
+		_, size := utf8.DecodeRuneInString(i.s[pos:])
+		pos += size
 	}
 	return i.s[pos]
 }
